@@ -173,6 +173,23 @@ func c03PubEncoding(rt *rapid.T, pub *ecdsa.PublicKey) ([]byte, string, bool) {
 	}
 }
 
+// c03SelfCheckSig: a signature produced by Sign has the right shape, low s, recovers
+// to the signing key and verifies (each binary on its own).
+func c03SelfCheckSig(rt *rapid.T, hash []byte, d *big.Int, sig, pubUnc []byte) {
+	if len(sig) != 65 || sig[64] > 3 {
+		rt.Fatalf("Sign(%x, d=%x) = %x: bad length or recovery id", hash, d, sig)
+	}
+	if new(big.Int).SetBytes(sig[32:64]).Cmp(secp256k1halfN) > 0 {
+		rt.Fatalf("Sign(%x, d=%x) = %x: s above half order", hash, d, sig)
+	}
+	if rec, err := Ecrecover(hash, sig); err != nil || !bytes.Equal(rec, pubUnc) {
+		rt.Fatalf("Ecrecover(%x, %x) = %x, %v; want %x", hash, sig, rec, err, pubUnc)
+	}
+	if !VerifySignature(pubUnc, hash, sig[:64]) {
+		rt.Fatalf("VerifySignature(%x, %x, %x) = false for a fresh signature", pubUnc, hash, sig[:64])
+	}
+}
+
 func TestVerifC03Backend(t *testing.T) {
 	st := vs.New("C03", t)
 	tr := transcript.Open(t, "transcript.txt")
@@ -184,14 +201,13 @@ func TestVerifC03Backend(t *testing.T) {
 	mult := 5.0
 	n := 0
 	// Known-finding gating (only effective when the lead's known_findings.json lists the class):
-	//  sign-digest-ge-n:   Sign output differs between the backends for digests >= n
-	//  recover-recid-4to7: Ecrecover accepts recovery ids 4..7 in the pure-Go backend only
+	//  sign-digest-ge-n: crypto.Sign returns different (individually valid) signatures on the two
+	//  backends for digests >= n. Narrow exclusion: only the Sign *output* for such a digest is
+	//  left out of the transcript; the case then continues with the signature of (digest mod n),
+	//  which both backends agree on and which is a valid signature for the original digest too,
+	//  so recovery/verification over digests >= n stay compared.
 	knownSignGeN := vs.Known("TestVerifC03Backend", "sign-digest-ge-n")
-	knownRecid := vs.Known("TestVerifC03Backend", "recover-recid-4to7")
 	recids := []byte{0, 1, 2, 3, 4, 5, 6, 7, 8, 26, 27, 28, 29, 31, 128, 228, 229, 230, 255}
-	if knownRecid {
-		recids = []byte{0, 1, 2, 3, 3, 2, 1, 0, 8, 26, 27, 28, 29, 31, 128, 228, 229, 230, 255}
-	}
 	vs.Check(t, mult, func(rt *rapid.T) {
 		c := st.Case()
 		n++
@@ -199,40 +215,42 @@ func TestVerifC03Backend(t *testing.T) {
 		op := rapid.IntRange(0, 9).Draw(rt, "op")
 		d, keyClass := c03Scalar(rt, "key")
 		key := c03Key(d)
-		hash := c03Hash(rt, "hash", !knownSignGeN)
-		if knownSignGeN {
-			st.Excluded()
-		}
+		hash := c03Hash(rt, "hash", true)
 		pubUnc := FromECDSAPub(&key.PublicKey)
 		tr.Linef("%d key d=%064x pub=%x addr=%x", id, d, pubUnc, PubkeyToAddress(key.PublicKey))
 
 		sig, err := Sign(hash, key)
-		tr.Linef("%d sign hash=%x -> %s", id, hash, c03BytesStr(sig, err))
 		if err != nil {
 			rt.Fatalf("Sign(%x, d=%x) failed: %v", hash, d, err)
 		}
+		geN := new(big.Int).SetBytes(hash).Cmp(secp256k1N) >= 0
+		if geN && knownSignGeN {
+			// known finding: the output is checked per binary below (it must recover and verify)
+			// but not compared; continue with the signature over the reduced digest.
+			st.Excluded()
+			c03SelfCheckSig(rt, hash, d, sig, pubUnc)
+			tr.Linef("%d sign hash=%x -> (excluded: known finding sign-digest-ge-n)", id, hash)
+			reduced := c03Pad32(new(big.Int).Mod(new(big.Int).SetBytes(hash), secp256k1N))
+			sig, err = Sign(reduced, key)
+			if err != nil {
+				rt.Fatalf("Sign(%x, d=%x) failed: %v", reduced, d, err)
+			}
+			tr.Linef("%d sign reduced hash=%x -> %x", id, reduced, sig)
+		} else {
+			tr.Linef("%d sign hash=%x -> %s", id, hash, c03BytesStr(sig, err))
+		}
 		// per-binary inverse checks on the valid signature
-		if len(sig) != 65 || sig[64] > 3 {
-			rt.Fatalf("Sign(%x, d=%x) = %x: bad length or recovery id", hash, d, sig)
-		}
-		if new(big.Int).SetBytes(sig[32:64]).Cmp(secp256k1halfN) > 0 {
-			rt.Fatalf("Sign(%x, d=%x) = %x: s above half order", hash, d, sig)
-		}
-		if rec, err := Ecrecover(hash, sig); err != nil || !bytes.Equal(rec, pubUnc) {
-			rt.Fatalf("Ecrecover(%x, %x) = %x, %v; want %x", hash, sig, rec, err, pubUnc)
-		}
-		if !VerifySignature(pubUnc, hash, sig[:64]) {
-			rt.Fatalf("VerifySignature(%x, %x, %x) = false for a fresh signature", pubUnc, hash, sig[:64])
-		}
+		c03SelfCheckSig(rt, hash, d, sig, pubUnc)
 
 		nontriv := false
 		class := ""
 		switch op {
 		case 0: // plain sign + all read-backs
 			class = "sign/recover/verify valid"
-			sig2, _ := Sign(hash, key)
-			if !bytes.Equal(sig, sig2) {
-				rt.Fatalf("Sign is not deterministic: %x vs %x", sig, sig2)
+			sigA, _ := Sign(hash, key)
+			sigB, _ := Sign(hash, key)
+			if !bytes.Equal(sigA, sigB) {
+				rt.Fatalf("Sign is not deterministic: %x vs %x", sigA, sigB)
 			}
 			p, err := SigToPub(hash, sig)
 			tr.Linef("%d sigtopub -> %s", id, c03PubStr(p, err))
@@ -292,9 +310,6 @@ func TestVerifC03Backend(t *testing.T) {
 			case 1:
 				class = "recover: recovery id replaced"
 				msig[64] = rapid.SampledFrom(recids).Draw(rt, "v")
-				if knownRecid {
-					st.Excluded()
-				}
 			case 2:
 				class = "recover: high-s twin"
 				copy(msig[32:64], c03Pad32(new(big.Int).Sub(secp256k1N, s)))
